@@ -277,10 +277,10 @@ def harness_cases(tier, sd):
 
     # (a) atom kinds x value classes: every edit of a referenced value must re-execute
     kinds = ["", "const", "default", "closure", "helper", "nested", "module", "modfn", "flag"]
-    classes = ["", "int16", "int32", "str", "tuple", "dict", "float"]
+    classes = ["", "int16", "int32", "str", "tuple", "dict", "float", "intfloat"]
     for k in kinds:
         for v in classes:
-            if quick and k != "flag" and (kinds.index(k) + classes.index(v)) % 3 != sd % 3 and not (k == "" or v == "int16"):
+            if quick and k != "flag" and (kinds.index(k) + classes.index(v)) % 3 != sd % 3 and not (k == "" or v in ("int16", "intfloat")):
                 continue
             shape = json.loads(json.dumps(SHAPES["chain"]))
             if k == "flag":
